@@ -16,7 +16,8 @@ def _partial_eq(name, suffixes=("::eq", "::ne")):
 
 
 def true_implies_key_equality(cf, is_key=None):
-    """is_key(call_value) -> bool narrows which `==`/`!=` calls count (default: every PartialEq::eq / ne)"""
+    """True (proved) / False (a definite counter-shape) / None (a construct that is not followed: no verdict).
+    is_key(call_value) -> bool narrows which `==`/`!=` calls count (default: every PartialEq::eq / ne)"""
     cfg, du = cfg_of(cf), du_of(cf)
     if is_key is None:
         is_key = lambda v: True
@@ -40,61 +41,72 @@ def true_implies_key_equality(cf, is_key=None):
                 if val == 0:
                     eq_edges.append((sb, tb) if neg else (sb, st["otherwise"]))
 
+    # three-valued: True = proved, False = a definite counter-shape (a value of the wrong polarity that does not come from the key
+    # equality and is not behind it), None = a construct the judgement does not follow (a combinator, an opaque call): no verdict
+    def all3(xs):
+        xs = list(xs)
+        if any(x is False for x in xs):
+            return False
+        return True if all(x is True for x in xs) else None
+
+    def any3(xs):
+        xs = list(xs)
+        if any(x is True for x in xs):
+            return True
+        return False if all(x is False for x in xs) else None
+
     def holds(v, want, depth=0):
         if depth > 10:
-            return False
+            return None
         if v[0] == "const":
             val = bool(v[1]) if isinstance(v[1], (bool, int)) else None
-            return val is not None and val != want        # the constant never takes the value in question
+            if val is None:
+                return None
+            return val != want        # the constant never takes the value in question
         if v[0] == "call":
-            return key_call(v, "::eq") if want else key_call(v, "::ne")
+            if _partial_eq(v[1]):
+                return key_call(v, "::eq") if want else key_call(v, "::ne")
+            return None               # an opaque call
         if v[0] == "unop" and v[1] == "Not":
             return holds(v[2], not want, depth + 1)
         if v[0] == "binop" and v[1] in ("BitAnd", "BitOr"):
             one_suffices = (v[1] == "BitAnd") == want      # true of a&b needs both true; false of a|b needs both false
-            a_, b_ = holds(v[2], want, depth + 1), holds(v[3], want, depth + 1)
-            return (a_ or b_) if one_suffices else (a_ and b_)
+            rs = [holds(v[2], want, depth + 1), holds(v[3], want, depth + 1)]
+            return any3(rs) if one_suffices else all3(rs)
         if v[0] == "place" and not v[1][1]:
             return local_ok(v[1][0], want, depth + 1)
-        return False
+        return None
 
     def local_ok(l, want=True, depth=0):
         if depth > 10:
-            return False
+            return None
         ds = du.defs.get(l, [])
         if not ds:
-            return False
+            return None
+        out = []
         for d in ds:
             if eq_edges and cfg.edges_dominate(eq_edges, d[1]):
                 continue        # computed behind the true edge of a key equality: whatever its value, the equality holds there
             if d[0] == "call":
-                v = du.val_call(d[3], 0, d[1])
-                if not key_call(v, "::eq" if want else "::ne"):
-                    return False
+                out.append(holds(du.val_call(d[3], 0, d[1]), want, depth + 1))
             elif d[0] == "assign":
                 rv = d[3]
                 if rv["k"] == "use" and rv["ops"][0].get("k") == "const":
                     val = rv["ops"][0].get("v")
-                    if isinstance(val, bool) and val == want and not cfg.edges_dominate(eq_edges, d[1]):
-                        return False
-                    continue
-                if rv["k"] == "use" and rv["ops"][0].get("k") in ("copy", "move") and not rv["ops"][0]["p"]:
-                    if not local_ok(rv["ops"][0]["l"], want, depth + 1):
-                        return False
-                    continue
-                if rv["k"] in ("binop", "unop"):
+                    out.append(not (isinstance(val, bool) and val == want))
+                elif rv["k"] == "use" and rv["ops"][0].get("k") in ("copy", "move") and not rv["ops"][0]["p"]:
+                    out.append(local_ok(rv["ops"][0]["l"], want, depth + 1))
+                elif rv["k"] in ("binop", "unop"):
                     def opv(o):
                         # operands stay symbolic (a multi-def flag is judged definition by definition)
                         if o.get("k") in ("copy", "move") and not o["p"]:
                             w = du.val_operand(o)
                             return w if w[0] in ("call", "const", "unop", "binop") and len(du.defs.get(o["l"], [])) == 1 else ("place", (o["l"], ()))
                         return du.val_operand(o)
-                    v = (rv["k"], rv["op"]) + tuple(opv(o) for o in rv["ops"])
-                    if not holds(v, want, depth + 1):
-                        return False
-                    continue
-                return False
+                    out.append(holds((rv["k"], rv["op"]) + tuple(opv(o) for o in rv["ops"]), want, depth + 1))
+                else:
+                    out.append(None)
             else:
-                return False
-        return True
+                out.append(None)
+        return all3(out)
     return local_ok(0, True)
